@@ -51,8 +51,8 @@ class Preempter(object):
 
     def _local(self, frame, event, arg):
         if self.active and (event == 'line' or event == 'opcode'):
-            sim = self.sim
-            if sim.in_task() and not sim._aborting:
+            sim = self.sim          # may be bound after install() (threads must start traced)
+            if sim is not None and sim.in_task() and not sim._aborting:
                 if event == 'opcode':
                     if not self.opcode_prob or \
                             not sim.chance('preempt', self.opcode_prob, 'preop'):
